@@ -65,7 +65,8 @@ L = 16            # SecInt bit length used by generated programs
 BOUND = 1 << 13   # generated values stay below this magnitude
 
 
-def gen_spec(rng, m, n_ops, with_mod=False, with_barrier=False, with_exc=False, with_ucoro=False, with_typed=True):
+def gen_spec(rng, m, n_ops, with_mod=False, with_barrier=False, with_exc=False, with_ucoro=False, with_typed=True,
+             ucoro_forms=('type', 'none', 'annot', 'annot_none', 'raise', 'peek')):
     """Random secure-integer program as a JSON-able op list, together with its Python-int oracle."""
     ops, vals, futs, results = [], [], [], []
     pending_f = []
@@ -183,7 +184,7 @@ def gen_spec(rng, m, n_ops, with_mod=False, with_barrier=False, with_exc=False, 
             results.append(exp)
         elif k == 'ucoro':
             # user coroutine (@mpc.coroutine) of one of the declaration forms; all of them open x inside (network round)
-            form = rng.choice(['type', 'none', 'annot', 'annot_none', 'raise'])
+            form = rng.choice(list(ucoro_forms))
             i = pick()
             if form == 'type':
                 if abs(vals[i] * vals[i]) >= BOUND:
@@ -273,7 +274,8 @@ def make_prog(spec, mon=None, barrier_log=None):
                 else:
                     res.append(exp if r is None else 'non-receiver obtained %r' % (r,))
             elif k == 'ucoro':
-                f_ = {'type': u_type, 'none': u_none, 'annot': u_annot, 'annot_none': u_annot_none, 'raise': u_raise}[op[1]]
+                f_ = {'type': u_type, 'none': u_none, 'annot': u_annot, 'annot_none': u_annot_none, 'raise': u_raise,
+                      'peek': mpc.peek}[op[1]]      # Runtime.peek is the library's own `-> None` coroutine
                 r = f_(xs[op[2]])
                 if op[1] == 'type':
                     xs.append(r)
@@ -1063,7 +1065,8 @@ def handshake_stream(ctx, stats):
 def run(ctx):
     ok = ctx.build() and ctx.check_props()
     ctx.rule = ('case = (program, configuration (m,t), schedule); programs are random secure-integer op lists (mul, '
-                'comparisons, %, input, output, one-sender and all-to-all transfer, gather, awaits of earlier futures at '
+                'comparisons, %, input, output, typed outputs to subsets, None-returning coroutines (mpc.peek, user coroutines), '
+                'top-level barriers, one-sender and all-to-all transfer, gather, awaits of earlier futures at '
                 'varying distances); schedules: Fifo, RandomOrder seeds, Bytewise, ReverseLinks, Hold on single directed '
                 'links - applied to the connection handshake as well; plus handshakes with the pid+keys packet of every '
                 'connection cut at chosen byte offsets; non-trivial when the program has >= 1 await between two secure operations')
@@ -1084,7 +1087,10 @@ def run(ctx):
         progs = []
         for pi in range(nprog // len(CONFIGS)):
             with_mod = (pi % 3 == 2)
-            spec, want = gen_spec(rng, m, nops, with_mod=with_mod)
+            # None-returning coroutines (mpc.peek, returnType(None), -> None) and top-level barriers are part of every
+            # program: a coroutine that is never counted as finished keeps barrier()/shutdown() from terminating
+            spec, want = gen_spec(rng, m, nops, with_mod=with_mod, with_barrier=True, with_ucoro=True,
+                                  ucoro_forms=('type', 'none', 'annot', 'annot_none', 'peek', 'peek'))
             progs.append((spec, want, with_mod))
         pols = policies(rng, m, nhold=ctx.n(2, m * (m - 1)), nrand=ctx.n(2, 4))
         ref_trees = {}
@@ -1130,8 +1136,9 @@ def run(ctx):
                                               'runtime.mod touches the program counter after its first await)', detail)
                                 stats['mod_deadlocks'] += 1
                                 break     # this simulator is wedged; remaining programs run under the other schedules
-                        ctx.violation('schedule-dependent outcome: %s under %s (m=%d,t=%d)' % (
-                            'parties pending' if bad else 'wrong output', pn.split(':')[0], m, t), detail)
+                        ctx.violation('%s under %s (m=%d,t=%d)' % (
+                            'program did not terminate at every party (parties pending or failed)' if bad
+                            else 'schedule-dependent outcome: wrong output', pn.split(':')[0], m, t), detail)
                         break
                     # cross-schedule / cross-party label agreement
                     if touched:
@@ -1163,8 +1170,10 @@ def run(ctx):
                 else:
                     sd = sess.shutdown(pf)
                     if any(r is not True for r in sd):
-                        ctx.violation('shutdown incomplete under %s (m=%d,t=%d)' % (pn.split(':')[0], m, t),
-                                      {'m': m, 't': t, 'schedule': pn, 'shutdown': sd})
+                        ctx.violation('shutdown did not terminate at every party under %s (m=%d,t=%d)' % (pn.split(':')[0], m, t),
+                                      {'m': m, 't': t, 'schedule': pn, 'shutdown': sd, 'programs': [p_[0]['ops'] for p_ in progs],
+                                       'pc_level': [mp._pc_level for mp in sess.sim.mpcs],
+                                       'pending_tasks': [sess.mon.pending_tasks(i)[:6] for i in range(m)]})
             finally:
                 sess.close()
     handshake_stream(ctx, stats)
